@@ -137,6 +137,9 @@ func (c *ExprCtx) Expr(v ssa.Value) string {
 	case *ssa.Lookup:
 		return c.Expr(x.X) + "[" + c.Expr(x.Index) + "]"
 	case *ssa.Slice:
+		if al, ok := x.X.(*ssa.Alloc); ok && al.Comment == "varargs" && x.Low == nil && x.High == nil {
+			return c.varargs(al)
+		}
 		s := c.Expr(x.X)
 		if strings.HasPrefix(s, "&") {
 			s = s[1:]
@@ -172,6 +175,37 @@ func (c *ExprCtx) Expr(v ssa.Value) string {
 		return "select"
 	}
 	return fmt.Sprintf("?%T", v)
+}
+
+// varargs renders the elements of a variadic argument list `f(a, b, c)`.
+func (c *ExprCtx) varargs(al *ssa.Alloc) string {
+	elems := map[int64]string{}
+	max := int64(-1)
+	if al.Referrers() != nil {
+		for _, r := range *al.Referrers() {
+			ia, ok := r.(*ssa.IndexAddr)
+			if !ok || ia.Referrers() == nil {
+				continue
+			}
+			k, ok := ia.Index.(*ssa.Const)
+			if !ok || k.Value == nil {
+				continue
+			}
+			for _, rr := range *ia.Referrers() {
+				if st, ok := rr.(*ssa.Store); ok && st.Addr == ssa.Value(ia) {
+					elems[k.Int64()] = c.Expr(st.Val)
+					if k.Int64() > max {
+						max = k.Int64()
+					}
+				}
+			}
+		}
+	}
+	var parts []string
+	for i := int64(0); i <= max; i++ {
+		parts = append(parts, elems[i])
+	}
+	return strings.Join(parts, ",")
 }
 
 func globalName(g *ssa.Global) string {
